@@ -13,10 +13,25 @@ def make_png(width: int, height: int, payload: bytes = b"") -> bytes:
     return b"\x89PNG\r\n\x1a\n" + _chunk(b"IHDR", ihdr) + _chunk(b"IDAT", payload) + _chunk(b"IEND", b"")
 
 
-def make_jpeg(width: int, height: int, payload: bytes = b"", app_segments=(), sof: int = 0xC0) -> bytes:
+def make_jpeg(width: int, height: int, payload: bytes = b"", app_segments=(), sof: int = 0xC0,
+              fake_sof: bool = False, tables: bool = False, fill: int = 0) -> bytes:
+    """SOI, APPn segments, [DQT + DHT], SOFn(height, width), SOS + payload, EOI.
+
+    fake_sof: every APPn segment long enough carries the bytes of a complete SOF0 segment with
+              OTHER dimensions inside its content (what an embedded EXIF thumbnail looks like);
+    tables:   a DQT and a DHT segment (markers DB, C4 - C4 is *not* a frame header) precede the frame header;
+    fill:     that many 0xFF fill bytes in front of the frame-header marker (T.81 B.1.1.2 allows them)."""
     out = b"\xff\xd8"
     for seg_len in app_segments:  # APPn segments, seg_len includes the two length bytes
-        out += b"\xff\xe1" + struct.pack(">H", seg_len) + bytes((i * 7) % 251 for i in range(seg_len - 2)).replace(b"\xff", b"\xfe")
+        body = bytes((i * 7) % 251 for i in range(seg_len - 2)).replace(b"\xff", b"\xfe")
+        if fake_sof and seg_len - 2 >= 14:
+            decoy = b"\xff\xc0" + struct.pack(">HBHHB", 11, 8, 7, 9, 1) + b"\x01\x11\x00"
+            body = body[:1] + decoy + body[1 + len(decoy):]
+        out += b"\xff\xe1" + struct.pack(">H", seg_len) + body
+    if tables:
+        out += b"\xff\xdb" + struct.pack(">H", 67) + b"\x00" + bytes(range(1, 65))
+        out += b"\xff\xc4" + struct.pack(">H", 20) + b"\x00" + bytes(16) + b"\x00"
+    out += b"\xff" * fill
     out += bytes([0xFF, sof]) + struct.pack(">HBHHB", 11, 8, height, width, 1) + b"\x01\x11\x00"
     out += b"\xff\xda" + struct.pack(">H", 8) + b"\x01\x01\x00\x00\x3f\x00" + payload.replace(b"\xff", b"\xff\x00") + b"\xff\xd9"
     return out
@@ -25,3 +40,39 @@ def make_jpeg(width: int, height: int, payload: bytes = b"", app_segments=(), so
 def make_emf(payload: bytes = b"") -> bytes:
     hdr = struct.pack("<II", 1, 88) + b"\x00" * 32 + b" EMF" + b"\x00" * 40
     return hdr + payload
+
+
+def pattern(n: int, salt: int = 0) -> bytes:
+    """n deterministic bytes; every byte value occurs once n >= 256 (167 is odd, so i -> 167*i+c permutes 0..255)."""
+    return bytes((i * 167 + 13 + salt * 29) % 256 for i in range(n))
+
+
+def png_size(data: bytes):
+    """(width, height) from the IHDR chunk - reference reader for the oracle (PNG spec section 11.2.2)."""
+    if data[:8] != b"\x89PNG\r\n\x1a\n" or data[12:16] != b"IHDR":
+        return None
+    return struct.unpack(">II", data[16:24])
+
+
+def jpeg_size(data: bytes):
+    """(width, height) from the first frame header SOFn, walking the marker segments (T.81 B.1.1, B.2.2)."""
+    if data[:2] != b"\xff\xd8":
+        return None
+    i = 2
+    while i + 4 <= len(data):
+        if data[i] != 0xFF:
+            return None
+        while i < len(data) and data[i] == 0xFF:  # marker prefix + optional fill bytes
+            i += 1
+        m = data[i]
+        i += 1
+        if m in (0xD8, 0x01) or 0xD0 <= m <= 0xD7:
+            continue  # stand-alone markers
+        if m == 0xD9 or m == 0xDA:
+            return None
+        (ln,) = struct.unpack(">H", data[i:i + 2])
+        if 0xC0 <= m <= 0xCF and m not in (0xC4, 0xC8, 0xCC):
+            h, w = struct.unpack(">HH", data[i + 3:i + 7])
+            return (w, h)
+        i += ln
+    return None
